@@ -7,9 +7,13 @@ EXTENDS PlanCache, Json
 (* different fragment bodies.  name: the document always holds two operations A and B, the     *)
 (* component says which one operationName selects.  ids: the helper ids the sanitiser adds     *)
 (* are written out by the client (the text then equals the sanitised text of Base).            *)
+(* sel: "S2" = the root field under an alias; "S3" = the root field next to a root field the   *)
+(* gateway answers itself (__typename): the handler splits such a plan into its internal and    *)
+(* its service steps on EVERY request, i.e. it works on the plan object the cache hands out to  *)
+(* everybody.                                                                                   *)
 Base == [sel |-> "S1", kind |-> "q", name |-> "A", vdef |-> "V1", frag |-> "none", ids |-> FALSE]
 Pool == {Base,
-         [Base EXCEPT !.sel = "S2"], [Base EXCEPT !.kind = "m"], [Base EXCEPT !.name = "B"],
+         [Base EXCEPT !.sel = "S2"], [Base EXCEPT !.sel = "S3"], [Base EXCEPT !.kind = "m"], [Base EXCEPT !.name = "B"],
          [Base EXCEPT !.vdef = "V2"], [Base EXCEPT !.ids = TRUE],
          [Base EXCEPT !.frag = "F1"], [Base EXCEPT !.frag = "F2"]}
 AllFields == {"sel", "kind", "name", "vdef", "frag", "ids"}
